@@ -25,7 +25,7 @@ RULE = "run = seeded prefix of 1..40 library calls with injected faults, each pa
 REAL = ["cssutils/* (parse, prodparser, tokenize2, errorhandler, serialize, profiles, script, css/*, stylesheets/*)", "encutils", "codecs machinery"]
 STUBS = ["SimNet fetcher / fake urllib.request.urlopen", "scratch files in a per-run temp dir", "SimLog log sink"]
 ASSUMPTIONS = ["single-threaded use (README: cssutils is thread unsafe)", "log message texts are not compared, only levels and counts"]
-PROBES = ["savedTokens_nonempty_at_op_end", "pushback_nonempty_at_op_end", "exception_through_nested_import", "parser_built_under_other_mode", "parse_raised", "battery_after_fault", "live_fetcher_reused_after_documents_changed", "member_of_parsed_container_edited", "object_reused_after_rejected_text"]
+PROBES = ["savedTokens_nonempty_at_op_end", "pushback_nonempty_at_op_end", "exception_through_nested_import", "parser_built_under_other_mode", "parse_raised", "battery_after_fault", "live_fetcher_reused_after_documents_changed", "member_of_parsed_container_edited", "object_reused_after_rejected_text", "reentered_same_parser_object"]
 
 UNDECODABLE = ["fffe61", "ff", "c328", "61ff62", "efbbbfff", "40636861727365742022617363696922 3bff".replace(" ", "")]
 
@@ -296,15 +296,24 @@ class World:
             # oracle 4: the same import graph through a re-entrant fetcher and through a plain one
             docs = op["net"]
 
+            holder = {}
+
             def reenter():
-                s = cu.parseString(op.get("inner", "q { top: 1px } @media print { r { left: 0 } }"))
+                inner = op.get("inner", "q { top: 1px } @media print { r { left: 0 } }")
+                if op.get("same_parser") and holder.get("p") is not None:
+                    # the fetcher re-enters the very parser object that is loading the import
+                    self.stats["probe:reentered_same_parser_object"] += 1
+                    s = holder["p"].parseString(inner)
+                else:
+                    s = cu.parseString(inner)
                 s.cssText
                 cu.stylesheets.MediaList("print, tv")
 
             plain = {u: dict(d, fault=None if d.get("fault") == "REENTRANT" else d.get("fault")) for u, d in docs.items()}
             n1 = simnet.SimNet(docs, self.stats, reenter=reenter)
             n2 = simnet.SimNet(plain)
-            k1, v1 = self.bracket(k, lambda: cu.CSSParser(fetcher=n1.fetch).parseString(op["text"], href="http://h/root.css"))
+            holder["p"] = cu.CSSParser(fetcher=n1.fetch)
+            k1, v1 = self.bracket(k, lambda: holder["p"].parseString(op["text"], href="http://h/root.css"))
             k2, v2 = lib.call(lambda: cu.CSSParser(fetcher=n2.fetch).parseString(op["text"], href="http://h/root.css"))
             self.stats["oracle"] += 1
             a, b = self.result_of(k1, v1), self.result_of(k2, v2)
@@ -574,7 +583,7 @@ def gen_op(r, w, i):
         base.update(net=_net(r, cfg), url="http://h/a.css", default_fetcher=r.random() < 0.3, encoding=r.choice([None, None, "utf-8"]), via=r.choice(["fresh", "p0"]))
         return base
     if k == "parse_import":
-        base.update(net=_net(r, cfg, reentrant=True), text='@import "a.css"; ' + G.sheet(r, n=2, bad=bad))
+        base.update(net=_net(r, cfg, reentrant=True), text='@import "a.css"; ' + G.sheet(r, n=2, bad=bad), same_parser=r.random() < 0.5)
         return base
     if k == "new_parser":
         base.update({"raise": r.random() < 0.4, "comments": r.random() < 0.8, "validate": r.random() < 0.8})
